@@ -8,6 +8,8 @@ import (
 	"fmt"
 	"go/ast"
 	"go/token"
+	"os"
+	"path/filepath"
 	"strconv"
 	"strings"
 )
@@ -37,6 +39,52 @@ func constString(f *ast.File, name string) string {
 	return stringVar(f, name)
 }
 
+// c12SourceFacts: package-level state of paths/ and utils/ (there must be none: resolution is a pure function of the
+// tree, the base directory, $HOME and the file system), and the printed bodies of every function Model/Paths*.lean mirrors.
+func c12SourceFacts(b *strings.Builder) {
+	var files, vars []string
+	for _, dir := range []string{"paths", "utils"} {
+		ents, _ := os.ReadDir(filepath.Join(repo, dir))
+		for _, e := range ents {
+			n := e.Name()
+			if e.IsDir() || !strings.HasSuffix(n, ".go") || strings.HasSuffix(n, "_test.go") {
+				continue
+			}
+			f := parse(dir + "/" + n)
+			if !fileInNormalBuild(f) {
+				continue // e.g. the verif-tagged export files
+			}
+			files = append(files, dir+"/"+n)
+			for _, d := range f.Decls {
+				if g, ok := d.(*ast.GenDecl); ok && g.Tok == token.VAR {
+					for _, sp := range g.Specs {
+						for _, id := range sp.(*ast.ValueSpec).Names {
+							vars = append(vars, dir+"."+id.Name)
+						}
+					}
+				}
+			}
+		}
+	}
+	fmt.Fprintf(b, "\n/-- the non-test, normally built files of packages paths and utils that were scanned -/\ndef paths_scannedFiles : List String := [%s]\n", joinLean(files))
+	fmt.Fprintf(b, "/-- every package-level `var` of those files (package.name) -/\ndef paths_packageVars : List String := [%s]\n\n", joinLean(vars))
+	type fn struct{ file, recv, name string }
+	for _, x := range []fn{
+		{"paths/resolve.go", "", "ResolveRelativePaths"}, {"paths/resolve.go", "relativePathsResolver", "isRemoteResource"},
+		{"paths/resolve.go", "relativePathsResolver", "resolveRelativePaths"}, {"paths/resolve.go", "relativePathsResolver", "absPath"},
+		{"paths/resolve.go", "relativePathsResolver", "join"}, {"paths/resolve.go", "relativePathsResolver", "absVolumeMount"},
+		{"paths/resolve.go", "relativePathsResolver", "volumeDriverOpts"},
+		{"paths/context.go", "relativePathsResolver", "absContextPath"}, {"paths/context.go", "", "isRemoteContext"},
+		{"paths/unix.go", "relativePathsResolver", "maybeUnixPath"}, {"paths/unix.go", "relativePathsResolver", "absSymbolicLink"},
+		{"paths/extends.go", "relativePathsResolver", "absExtendsPath"}, {"paths/home.go", "", "ExpandUser"},
+		{"paths/windows_path.go", "", "isSlash"}, {"paths/windows_path.go", "", "isWindowsAbs"}, {"paths/windows_path.go", "", "volumeNameLen"},
+		{"utils/pathutils.go", "", "ResolveSymbolicLink"}, {"utils/pathutils.go", "", "getSymbolinkLink"}, {"utils/pathutils.go", "", "isSymbolicLink"},
+		{"loader/loader.go", "localResourceLoader", "abs"}, {"loader/loader.go", "localResourceLoader", "Load"}, {"loader/loader.go", "localResourceLoader", "Dir"},
+	} {
+		fmt.Fprintf(b, "def paths_body_%s : String := %s\n", x.name, leanStr(funcBody(parse(x.file), x.recv, x.name)))
+	}
+}
+
 func init() {
 	extraGenerators = append(extraGenerators, func() (string, string) {
 		var b strings.Builder
@@ -51,6 +99,7 @@ func init() {
 		fmt.Fprintf(&b, "/-- paths/resolve.go volumeDriverOpts: string literals in source order -/\ndef paths_driverOptsLits : List String := [%s]\n", joinLean(stringLits(res, "volumeDriverOpts")))
 		ty := parse("types/types.go")
 		fmt.Fprintf(&b, "/-- types.VolumeTypeBind -/\ndef types_VolumeTypeBind : String := %s\n", leanStr(constString(ty, "VolumeTypeBind")))
+		c12SourceFacts(&b)
 		b.WriteString("\nend CV.Gen\n")
 		fmt.Fprintf(logw, "paths consts: %d remote prefixes\n", len(stringLits(ctx, "isRemoteContext")))
 		return "PathsConsts.lean", b.String()
